@@ -394,7 +394,14 @@ func init() {
 	})
 	// ---- upgrade
 	P("software-upgrade", 1, func(g *richGen) (govtypes.Content, int) {
-		return upgradetypes.NewSoftwareUpgradeProposal(fmt.Sprintf("upg%d", g.rn(3)), []upgradetypes.Resource{{Id: "kira", Url: "u", Version: "v", Checksum: "c"}}, g.w.now.Unix()+10*365*86400, chainID, "verif-2", "memo", 600, "up", true, false, true), -1
+		// mostly far in the future (the plan stays pending); sometimes within the history: the plan is then processed in
+		// two passes (validators that did not approve are paused, one block later the plan becomes the current one;
+		// instate upgrade with its handler skipped: no halt)
+		at := g.w.now.Unix() + 10*365*86400
+		if g.chance(1, 3) {
+			at = g.w.now.Unix() + int64(200+g.rn(600))
+		}
+		return upgradetypes.NewSoftwareUpgradeProposal(fmt.Sprintf("upg%d", g.rn(3)), []upgradetypes.Resource{{Id: "kira", Url: "u", Version: "v", Checksum: "c"}}, at, chainID, "verif-2", "memo", 600, "up", true, false, true), -1
 	})
 	P("cancel-software-upgrade", 1, func(g *richGen) (govtypes.Content, int) {
 		if plan, _ := g.w.app.UpgradeKeeper.GetNextPlan(g.ctx); plan == nil {
@@ -605,8 +612,18 @@ var richBoot = [][]func(g *richGen) bool{
 		s := g.voters[1]
 		return g.add("councilor-claim", s, govtypes.NewMsgClaimCouncilor(g.A(s), fmt.Sprintf("cnc%d", s), "", "councilor", "", fmt.Sprintf("c%d@x", s), ""))
 	}},
-	// block 5: the dApp gets bonded above the minimum by two more accounts; claims from the seeded pool
+	// block 5: the dApp gets bonded above the minimum by two more accounts; claims from the seeded pool; an owner of the
+	// collective puts a proposal about it to the vote at once (with a long voting period it outlives the collective)
 	{func(g *richGen) bool {
+		for _, p := range richProps {
+			if p.name == "collective-update" || p.name == "collective-send-donation" {
+				if c, who := p.f(g); c != nil && g.chance(1, 2) {
+					return g.submit(p.name, c, who)
+				}
+			}
+		}
+		return false
+	}, func(g *richGen) bool {
 		for _, s := range []int{g.sudo, g.voters[1]} {
 			if g.alive(s) {
 				g.add("dapp-bond", s, &l2types.MsgBondDappProposal{Sender: g.S(s), DappName: "dapp1", Bond: sdk.NewInt64Coin("ukex", 600_000_000)})
